@@ -124,6 +124,23 @@ def property_checks(inp):
     P = numpy.abs(X) ** 2
     A(("tps = mean |FFT|^2 over centroids", float(numpy.max(numpy.abs(m - P[..., :nfr // 2, :].mean(-1))) / numpy.max(P)), 1e-12))
     A(("tps_err = std/sqrt(n)", float(numpy.max(numpy.abs(e - P[..., :nfr // 2, :].std(-1) / numpy.sqrt(nc))) / numpy.max(P)), 1e-12))
+    # phase maps in detector counts (int16 / int32) give the values of the same numbers as floats (no sum may wrap)
+    for dt_, amp_ in ((numpy.int32, 3000), (numpy.int16, 150)):
+        pi_ = npr.integers(-amp_, amp_ + 1, size=(48, 40)).astype(dt_)
+        A(("structure function of an %s phase map = that of the same values as float64" % numpy.dtype(dt_).name,
+           float(numpy.max(numpy.abs(sc.calculate_structure_function(pi_, step=1) - sc.calculate_structure_function(pi_.astype(float), step=1)))
+                 / numpy.max(sc.calculate_structure_function(pi_.astype(float), step=1))), 1e-12))
+    # complex slope data (x + i y packed): left untouched, read-only accepted, a second call gives the same spectrum
+    zc = npr.normal(size=(16, 5)) + 1j * npr.normal(size=(16, 5)); zk_ = zc.copy()
+    m_a, _ = tp.calc_slope_temporalps(zc); m_b, _ = tp.calc_slope_temporalps(zc)
+    zro = zk_.copy(); zro.setflags(write=False)
+    try:
+        m_r, _ = tp.calc_slope_temporalps(zro); ro_ok = numpy.array_equal(m_r, m_a)
+    except Exception:
+        ro_ok = False
+    Pz = numpy.abs(numpy.fft.fft(zk_, axis=0)) ** 2
+    A(("temporal spectrum of complex slopes: data untouched, read-only accepted, second call equal, = mean |FFT|^2",
+       (0.0 if (numpy.array_equal(zc, zk_) and ro_ok and numpy.array_equal(m_a, m_b)) else 1.0) + float(numpy.max(numpy.abs(m_a - Pz[:8].mean(-1))) / numpy.max(Pz)), 1e-12))
     # a full-size sensor: hundreds of sub-apertures of very unequal power (the mean is over ALL of them, each weighing the same)
     ncb = inp.get("nc_big", 300)
     db = npr.normal(size=(16, ncb)) * (10.0 ** npr.uniform(-2, 2, size=ncb))[None, :]
@@ -225,8 +242,16 @@ def replay(payload):
 
 
 def classify(v, known):
+    if known["id"] == "C19-sf-int16-overflow":
+        return v["clause"] == "structure function of an int16 phase map = that of the same values as float64"
     return False
 
 
 def replay_known(known):
+    if known["id"] == "C19-sf-int16-overflow":
+        a = numpy.array([[0] * 4, [300] * 4, [0] * 4, [300] * 4], dtype=numpy.int16)
+        with warnings.catch_warnings():
+            warnings.simplefilter("ignore")
+            got = sc.calculate_structure_function(a, nbOfPoint=2, step=1)
+        return abs(float(got[1]) - 90000.0) > 1e-6
     return None
